@@ -597,6 +597,64 @@ class ModelGen:
             self.meta(v, 0.1)  # only typed values: a value_info entry needs a type
         return v
 
+    def optional_output_node(self, avail, nodes):
+        """LayerNormalization (Y, Mean?, InvStdDev?) or LSTM (Y?, Y_h?, Y_c?) from the standard domain, so
+        that the schema lookup of RemoveUnusedNodesPass finds the optional outputs.  Each optional output
+        is independently: used by a following node / unused / unused and already blank."""
+        ir, r = self.ir, self.rng
+        F = ir.TensorType(self.F)
+
+        def const(shape, fill):
+            c = ir.node("Constant", [], {"value": ir.tensor(np.full(shape, fill, dtype=np.float32))}, name=self.name("n"))
+            c.outputs[0].name = self.name()
+            c.outputs[0].shape = ir.Shape(list(shape))
+            c.outputs[0].type = F
+            nodes.append(c)
+            return c.outputs[0]
+
+        if r.random() < 0.6:
+            x = r.choice(avail)
+            node = ir.node("LayerNormalization", [x, const((64,), 1.0), const((64,), 0.0)], {"axis": -1}, num_outputs=3, name=self.name("n"))
+            shapes = [[4, 64], [4, 1], [4, 1]]
+            first_optional = 1
+        else:
+            # X: [seq=4, batch=1, input=64] would need a reshape; use dedicated constants instead
+            x3 = const((2, 1, 3), 0.5)
+            node = ir.node(
+                "LSTM", [x3, const((1, 8, 3), 0.1), const((1, 8, 2), 0.1)], {"hidden_size": 2}, num_outputs=3, name=self.name("n")
+            )
+            shapes = [[2, 1, 1, 2], [1, 1, 2], [1, 1, 2]]
+            first_optional = 0
+        for o, shp in zip(node.outputs, shapes):
+            o.name = self.name()
+            o.shape = ir.Shape(shp)
+            o.type = F
+        self.meta(node)
+        nodes.append(node)
+        followers = []
+        for i in range(first_optional, 3):
+            mode = r.choice(["used", "used", "unused", "unused", "blank"])
+            o = node.outputs[i]
+            if mode == "blank":
+                o.name = ""
+            elif mode == "used":
+                f = ir.node("Relu", [o], name=self.name("n"))
+                f.outputs[0].name = self.name()
+                f.outputs[0].shape = ir.Shape(shapes[i])
+                f.outputs[0].type = F
+                followers.append(f)
+        nodes.extend(followers)
+        # the value handed back to the generator is a [4,64]-compatible one
+        if first_optional == 1:
+            return [node.outputs[0]] + [f.outputs[0] for f in followers]
+        keep = ir.node("Relu", [r.choice(avail)], name=self.name("n"))
+        keep.outputs[0].name = self.name()
+        self.out_shape(keep)
+        nodes.append(keep)
+        # make the followers live: they are unused otherwise, which is fine (dead code), but some must survive
+        self.extra_outputs = getattr(self, "extra_outputs", []) + [f.outputs[0] for f in followers]
+        return [keep.outputs[0]]
+
     def out_shape(self, node):
         for o in node.outputs:
             o.shape = self.ir.Shape([4, 64])
@@ -639,8 +697,15 @@ class ModelGen:
                 ins = [r.choice(avail), r.choice(avail)]
                 node = ir.node(op, ins, name=self.name("n"))
                 history.append((op, ins))
-            elif k < 0.72:
+            elif k < 0.70:
                 node = ir.node("Clip", [r.choice(avail), None, None][: r.choice([1, 2, 3])], name=self.name("n"))
+            elif k < 0.745:
+                # optional outputs in every used/unused pattern, in particular an UNUSED optional output
+                # FOLLOWED by a USED one (it can be blanked but not truncated)
+                outs = self.optional_output_node(avail, nodes)
+                produced.append(outs[0])
+                avail.append(outs[0])
+                continue
             elif k < 0.78:
                 node = ir.node("Dropout", [r.choice(avail)], num_outputs=2, name=self.name("n"))
                 node.outputs[1].name = self.name("mask")
@@ -687,6 +752,12 @@ class ModelGen:
             avail.append(node.outputs[0])
         n_out = 1 if not is_main else r.randint(1, 2)
         outputs = [r.choice(produced) for _ in range(n_out)]
+        if is_main:
+            live = [n.outputs[0] for n in nodes if n.op_type == "Relu" and n.inputs[0] is not None
+                    and n.inputs[0].producer() is not None and n.inputs[0].producer().op_type in ("LayerNormalization", "LSTM")]
+            for v in live:
+                if r.random() < 0.8 and all(v is not o for o in outputs):
+                    outputs.append(v)
         if is_main and r.random() < 0.15:
             outputs.append(r.choice(inputs))  # a graph input used directly as output
         if is_main and r.random() < 0.1:
@@ -764,6 +835,35 @@ def pass_table():
         ("functionalize(RemoveUnusedNodes)", lambda: P.functionalize(cp.RemoveUnusedNodesPass())),
         ("functionalize(IdentityElimination)", lambda: P.functionalize(cp.IdentityEliminationPass())),
     ]
+
+
+def ir_fingerprint(model):
+    """Everything a pass can change that serialization may hide (None vs "" names and doc strings, object
+    identities and order, tensors of non-initializers, meta stores are NOT included: they never serialize)."""
+    import onnx_ir as ir
+
+    fp = [sorted(map(str, model.functions)), dict(model.metadata_props), model.doc_string]
+    for gl, _e, _p in all_graph_likes(model):
+        ent = [
+            type(gl).__name__, gl.name, repr(gl.doc_string), dict(gl.metadata_props), dict(gl.opset_imports or {}),
+            [id(v) for v in gl.inputs], [id(v) for v in gl.outputs],
+            [(k, id(v)) for k, v in gl.initializers.items()] if hasattr(gl, "initializers") else None,
+        ]
+        vals = {}
+        for v in list(gl.inputs) + list(gl.outputs) + (list(gl.initializers.values()) if hasattr(gl, "initializers") else []):
+            vals[id(v)] = v
+        for n in gl:
+            ent.append(
+                (id(n), repr(n.name), n.domain, n.op_type, n.overload, repr(n.doc_string), dict(n.metadata_props),
+                 [None if v is None else id(v) for v in n.inputs], [id(v) for v in n.outputs],
+                 [(k, a.type, id(a) if not isinstance(a, ir.Attr) or a.type in (ir.AttributeType.GRAPH, ir.AttributeType.GRAPHS, ir.AttributeType.TENSOR) else repr(a.value)) for k, a in n.attributes.items()])
+            )
+            for v in n.outputs:
+                vals[id(v)] = v
+        for i, v in vals.items():
+            ent.append((i, repr(v.name), str(v.shape), str(v.type), id(v.const_value), repr(v.doc_string), dict(v.metadata_props)))
+        fp.append(ent)
+    return repr(fp)
 
 
 def ser_bytes(model):
@@ -983,9 +1083,9 @@ MEASURES = {
     "LiftConstantsToInitializers": _m_nodes,
     "LiftConstantsToInitializers(all,0)": _m_nodes,
     "LiftSubgraphInitializersToMainGraph": lambda m: _m_inits(m) - len(m.graph.initializers),
-    "RemoveInitializersFromInputs": lambda m: sum(len(g.inputs) for g in m.graphs()),
+    "RemoveInitializersFromInputs": lambda m: len(m.graph.inputs),
     "AddInitializersToInputs": lambda m: sum(
-        sum(1 for v in g.initializers.values() if all(v is not x for x in g.inputs)) for g in m.graphs()
+        1 for v in m.graph.initializers.values() if all(v is not x for x in m.graph.inputs)
     ),
     "ClearMetadataAndDocString": _m_clearmeta,
     "OutputFix": _m_output_fix,
@@ -1032,7 +1132,7 @@ def initinputs_state(model, reg):
 
     return [
         {"inputs": [vid(v) for v in g.inputs], "inits": [vid(v) for v in g.initializers.values()]}
-        for g in model.graphs()
+        for g in [model.graph]  # both passes only touch the main graph (subgraph inputs are bound by position)
     ]
 
 
@@ -1067,6 +1167,7 @@ def apply_pass_case(part: Part, reqs: list, seed: int, flavour: str, pname: str,
         reg = {}
         extra = ("initinputs", reg, initinputs_state(model, reg))
     rounds, cur, modified_any = 0, model, False
+    fp_before = ir_fingerprint(model) if p.in_place else None
     sig = f"pass/{pname}"
     first = None
     measure = MEASURES.get(pname)
@@ -1099,8 +1200,17 @@ def apply_pass_case(part: Part, reqs: list, seed: int, flavour: str, pname: str,
         # 2. flag honesty
         if not r.modified and after != before:
             part.fail(sig + "/modified-false-but-changed", "modified=False but the serialized model differs", case)
+        fp_after = ir_fingerprint(r.model) if p.in_place else None
         if r.modified and after == before:
             part.count(f"pass:{pname}:modified-true-same-bytes")
+            # modified=True must mean something: different bytes OR an IR-only observable changed
+            if p.in_place and fp_after == fp_before:
+                part.fail(
+                    sig + "/modified-true-but-nothing-changed",
+                    f"round {rounds}: modified=True but neither the serialized model nor any IR observable changed",
+                    case,
+                )
+        fp_before = fp_after
         if measure is not None:
             mu2 = measure(r.model)
             if r.modified and not mu2 < mu:
